@@ -244,6 +244,41 @@ theorem after_counts_iff {s s' : State} {r : Nat} {q : Req} {o : HostId} {out : 
 example : ∃ s, Reachable s ∧ (s.reqs[0]?).map (·.pc) = some (Pc.exited 0 Outcome.upstreamErr) :=
   witness (exA.take 8) (by decide)
 
+-- ---------------------------------------------------------------- which answers strike
+
+/-- `StatusCodeMatches` (caddyhttp.go:230-240): an unhealthy_status entry matches the status the
+    backend sent iff it is that status or, being below 100, its class (5 = 5xx) -/
+theorem statusCodeMatches_iff (actual configured : Nat) :
+    statusCodeMatches actual configured = true ↔
+      actual = configured ∨ (configured < 100 ∧ actual / 100 = configured) := by
+  simp only [statusCodeMatches, Bool.or_eq_true, Bool.and_eq_true, beq_iff_eq, decide_eq_true_eq]
+  omega
+
+example : statusCodeMatches 503 5 = true ∧ statusCodeMatches 503 503 = true ∧ statusCodeMatches 503 4 = false ∧
+    statusCodeMatches 5003 50 = true ∧ statusCodeMatches 500 50 = false := by decide
+
+/-- an answer is struck once per matching unhealthy_status entry (reverseproxy.go:916-923): the
+    number of `countFailure` calls the schedule interpreter makes for a status -/
+theorem strikeCount_eq_matching_entries (entries : List Nat) (actual : Nat) :
+    strikeCount entries actual = (entries.filter (statusCodeMatches actual)).length := by
+  induction entries with
+  | nil => rfl
+  | cons c rest ih =>
+    simp only [strikeCount, List.filter_cons]
+    cases statusCodeMatches actual c <;> simp [ih] <;> omega
+
+example : strikeCount [500, 5] 500 = 2 ∧ strikeCount [4, 429, 503] 429 = 2 ∧ strikeCount [50] 500 = 0 ∧
+    strikeCount [200, 2] 200 = 2 := by decide
+
+/-- an upstream's own `max_requests` wins over the passive checker's unhealthy_request_count
+    (provisionUpstream, reverseproxy.go:1218-1231); only upstreams without one inherit it -/
+theorem own_max_requests_wins (p : Params) (i : Nat) :
+    maxReqAt p i = if i = 0 ∧ p.firstMax ≠ 0 then p.firstMax else p.maxReq := by
+  simp only [maxReqAt]
+  by_cases h0 : i = 0 <;> by_cases hf : p.firstMax = 0 <;> simp [h0, hf]
+
+example : maxReqAt { pA with maxReq := 3, firstMax := 1 } 0 = 1 ∧ maxReqAt { pA with maxReq := 3, firstMax := 1 } 1 = 3 := by decide
+
 -- ---------------------------------------------------------------- the `hosts` pool across reloads
 
 /-- the pool's usage count of a key equals the number of loaded handlers holding it -/
